@@ -162,11 +162,11 @@ func TestC12_BID(t *testing.T) {
 
 func TestC12_Length(t *testing.T) {
 	runRapid(t, 20000, 400000, func(t *rapid.T) {
-		n := rapid.IntRange(0, 64).Draw(t, "len")
-		if rapid.IntRange(0, 3).Draw(t, "near16") == 0 {
-			n = rapid.IntRange(14, 18).Draw(t, "len16")
+		n := ir(t, 0, 64, "len")
+		if ir(t, 0, 3, "near16") == 0 {
+			n = ir(t, 14, 18, "len16")
 		}
-		data := rapid.SliceOfN(rapid.Byte(), n, n).Draw(t, "data")
+		data := ubytes(t, n, "data")
 		c12len.Run(t, c12LenArgs{Data: data})
 	})
 }
@@ -303,19 +303,19 @@ var c12ctor = Register("C12", "C12.constructed", func(a c12CtorArgs) *Violation 
 func TestC12_Constructed(t *testing.T) {
 	runRapid(t, 60000, 3000000, func(t *rapid.T) {
 		var c *big.Int
-		switch rapid.IntRange(0, 3).Draw(t, "kind") {
+		switch ir(t, 0, 3, "kind") {
 		case 0:
 			// around the steering boundary 2^113 (+ the width of one low word) and Cmax
 			base := new(big.Int).Lsh(ref.One, 113)
-			switch rapid.IntRange(0, 3).Draw(t, "near") {
+			switch ir(t, 0, 3, "near") {
 			case 0:
-				base.Add(base, new(big.Int).SetUint64(rapid.Uint64().Draw(t, "lowWord")))
+				base.Add(base, new(big.Int).SetUint64(u64(t, "lowWord")))
 			case 1:
-				base.Add(base, bi(int64(rapid.IntRange(-3, 3).Draw(t, "off"))))
+				base.Add(base, bi(int64(ir(t, -3, 3, "off"))))
 			case 2:
-				base.Add(base, new(big.Int).Lsh(new(big.Int).SetUint64(rapid.Uint64().Draw(t, "w")>>17), 64))
+				base.Add(base, new(big.Int).Lsh(new(big.Int).SetUint64(u64(t, "w")>>17), 64))
 			default:
-				base.Sub(ref.Cmax, bi(int64(rapid.IntRange(0, 3).Draw(t, "off"))))
+				base.Sub(ref.Cmax, bi(int64(ir(t, 0, 3, "off"))))
 			}
 			c = capCoef(base)
 		default:
